@@ -58,7 +58,7 @@ def cases(draw, tier, mode):
     aggs = c17.CAGGS if case["kind"] == "ccube" else c17.XAGGS
     case["funcs"] = [{"agg": draw(st.sampled_from(aggs)), "ignore": draw(st.booleans()),
                       "rma": draw(st.sampled_from(["nan", ["tuple", 0], "plain"])),
-                      "prob": draw(st.sampled_from([0.0, 0.5, 1.0])), "weighted": draw(st.booleans())}
+                      "prob": draw(st.sampled_from([0.0, 0.5, 1.0])), "weighted": draw(st.booleans()), "tracing": draw(st.sampled_from([None, True, False]))}
                      for _ in range(n)]
     case["poolsize"] = draw(st.one_of(st.integers(2, 4), st.integers(2, 16), st.integers(1, 16)))
     if mode == "det":
@@ -123,7 +123,7 @@ def large_cases(draw, tier, mode):
     aggs = c17.CAGGS if case["kind"] == "ccube" else c17.XAGGS
     case["funcs"] = [{"agg": draw(st.sampled_from(aggs)), "ignore": draw(st.booleans()),
                       "rma": draw(st.sampled_from(["nan", ["tuple", 0]])), "prob": 0.5,
-                      "weighted": draw(st.booleans())} for _ in range(draw(st.integers(1, 3)))]
+                      "weighted": draw(st.booleans()), "tracing": draw(st.sampled_from([None, True, False]))} for _ in range(draw(st.integers(1, 3)))]
     case["poolsize"] = draw(st.integers(2, 6))
     if mode == "det":
         if draw(st.booleans()):
